@@ -326,6 +326,11 @@ pub fn matmul_blocked(
     let m = if transpose_a { cols_a } else { rows_a };
     let l = if transpose_a { rows_a } else { cols_a };
     let n = if transpose_b { rows_b } else { cols_b };
+    assert_eq!(
+        l,
+        if transpose_b { cols_b } else { rows_b },
+        "inner dimensions of the matrices do not match"
+    );
 
     let mut c = vec![0.; m * n];
 
@@ -369,6 +374,11 @@ pub fn matmul(
 ) -> Vec<f64> {
     let cols_a = is_matrix(a, rows_a).unwrap();
     let cols_b = is_matrix(b, rows_b).unwrap();
+    assert_eq!(
+        if transpose_a { rows_a } else { cols_a },
+        if transpose_b { cols_b } else { rows_b },
+        "inner dimensions of the matrices do not match"
+    );
 
     #[cfg(feature = "blas")]
     {
